@@ -450,6 +450,13 @@ func (f *codecFam) exec(c M) M {
 		r["wok"], r["rok"], r["out"] = false, false, []M{}
 		fn := f.tmp()
 		defer os.Remove(fn)
+		if pre, ok := c["pre"]; ok && dec(pre) > 0 {
+			// the file already exists and holds an older, longer list: saving replaces it
+			r["pre"] = pre
+			if err := os.WriteFile(fn, bytes.Repeat([]byte{0xab}, int(dec(pre))), 0o644); err != nil {
+				panic(err)
+			}
+		}
 		if p, msg := guard(func() {
 			if err := dht.WriteNodesToFile(ns, fn); err != nil {
 				return
